@@ -25,7 +25,8 @@ import (
 )
 
 type c15Case struct {
-	Kind  string  `json:"kind"` // "bytes" or "args"
+	Kind  string  `json:"kind"` // "bytes", "args" or "keyprefix" (bytes decoded under SetGlobalKeyMapPrefix(Pfx))
+	Pfx   string  `json:"pfx,omitempty"`
 	Input string  `json:"input,omitempty"`
 	Hex   bool    `json:"hex,omitempty"` // Input is hex (non UTF-8 bytes)
 	KV    *kvCase `json:"kv,omitempty"`
@@ -308,6 +309,28 @@ func c15Worker(in, out string) error {
 		c := batch.Cases[i]
 		os.WriteFile(out+".progress", []byte(fmt.Sprint(i)), 0o644)
 		switch c.Kind {
+		case "keyprefix":
+			// the sequence codec under another (documented: single punctuation character) prefix of the generated keys:
+			// element names that then EQUAL a generated key (_comment, _attr, _procinst ...) must not make the encoder panic
+			b := c.bytes()
+			res.Counts["keyprefix:"+c.Pfx]++
+			mxj.SetGlobalKeyMapPrefix(c.Pfx)
+			r, done := withTimeout(10*time.Second, func() decRes {
+				var m interface{}
+				o := protect(func() Outcome { v, err := mxj.NewMapXmlSeq(b); m = v; return Outcome{Err: err} })
+				return decRes{name: "NewMapXmlSeq", o: o, m: m}
+			})
+			res.Evals++
+			if !done {
+				viol("hang", "a decoder did not return within 10 s", c, "no result", "a Map or an error")
+			} else if r.o.Panicked {
+				viol("panic:NewMapXmlSeq:keyprefix", "the sequence decoder panicked under a non-default key prefix", c, r.o.PanicMsg, "a Map or an error")
+			} else if r.o.Err == nil && r.m != nil {
+				if msg, ok := encodeBack(r.name, r.m); !ok {
+					viol("seq-keyprefix-name-collision", "under SetGlobalKeyMapPrefix an element named like a generated key makes MapSeq.Xml / XmlIndent panic on the decoder's own output", c, msg, "no panic")
+				}
+			}
+			mxj.SetGlobalKeyMapPrefix("#")
 		case "bytes":
 			b := c.bytes()
 			okXML := firstDocOK(b)
@@ -511,6 +534,13 @@ func runC15(cfg runCfg) error {
 	}
 	for len(cases) < cfg.n {
 		cases = append(cases, c15Case{Kind: "args", KV: r.genC15Args()})
+	}
+	// generated keys that are legal element names (key prefix "_"): documents whose element names collide with them
+	for _, pfx := range []string{"_", "#"} {
+		for _, d := range []string{"<%scomment><a/></%scomment>", "<r><%sattr><x/></%sattr></r>", "<r><%sprocinst>x</%sprocinst><b/></r>",
+			"<r><%stext>t</%stext><%sseq>1</%sseq></r>", "<r %sk=\"v\"><!-- c --><?pi d?><b>1</b></r>"} {
+			cases = append(cases, c15Case{Kind: "keyprefix", Pfx: pfx, Input: strings.ReplaceAll(d, "%s", pfx)})
+		}
 	}
 
 	// ---- run in worker processes, restarting after a crash
